@@ -5,16 +5,36 @@ from bounded.common import outcome
 RULE = ("bit arrays: all of length 0..9 (quick) / 0..13 (thorough) exhaustively + seeded random up to 200 bits; DNA strings: "
         "all of length 0..4 (quick) / 0..6 (thorough) + seeded random up to 100 nt; each checked on the string and the int "
         "path, round trip with the original length, value against val2/val4, left padding at width len+3; "
-        "non-trivial = length >= 2 and not all-zero")
+        "plus numbers BEYOND CPython's 4300-digit int<->str conversion limit (a 7160-nt strand both ways on the string path, quick; a 14300-bit array both ways, "
+        "thorough): the string-typed arithmetic exists for exactly these sizes; non-trivial = length >= 2 and not all-zero")
 EXHAUSTIVE = {"quick": False, "thorough": False}
-CHUNK = 64
+CHUNK = 16
+
+
+def big_str(n):
+    """decimal rendering of a non-negative int without tripping the interpreter's digit limit (rendered in 1000-digit limbs)."""
+    parts, base = [], 10 ** 1000
+    while True:
+        n, r = divmod(n, base)
+        parts.append(r)
+        if n == 0:
+            break
+    return str(parts[-1]) + "".join("%01000d" % q for q in reversed(parts[:-1]))
 
 
 def cases(tier, rng):
     import itertools
+    # the long cases first: they take ~15 s each and run in their own pool tasks
+    yield {"kind": "long-dna", "dir": "to_dna", "x": "C" + "".join(rng.choice("ACGT") for _ in range(7159)), "nt": True}
+    longs = [{"kind": "long-dna", "dir": "to_number", "x": "G" + "".join(rng.choice("ACGT") for _ in range(7159)), "nt": True}]
+    if tier != "quick":
+        longs.append({"kind": "long-bits", "dir": "to_bits", "x": [1] + [rng.randint(0, 1) for _ in range(14299)], "nt": True})
+        longs.append({"kind": "long-bits", "dir": "to_number", "x": [1] + [rng.randint(0, 1) for _ in range(14299)], "nt": True})
     for n in range(0, 10 if tier == "quick" else 14):
         for bits in itertools.product((0, 1), repeat=n):
             yield {"kind": "bits", "x": list(bits), "nt": n >= 2 and any(bits)}
+        if n >= 4 and longs:          # one long case per pool task
+            yield longs.pop()
     for n in range(0, 5 if tier == "quick" else 7):
         for dna in itertools.product("ACGT", repeat=n):
             yield {"kind": "dna", "x": "".join(dna), "nt": n >= 2 and any(c != "A" for c in dna)}
@@ -30,6 +50,38 @@ def check(case):
     fails = []
     x = case["x"]
     n = len(x)
+    if case["kind"] == "long-dna":
+        want = S.val4(x)
+        text = big_str(want)
+        if case["dir"] == "to_dna":
+            for num, tag in ((text, "str"), (want, "int")):
+                r = outcome(number_to_dna, num, n, limit=300)
+                if r != ("ok", x):
+                    fails.append(("number_to_dna:long-" + tag, f"number_to_dna(<{len(text)}-digit {tag}>, {n}) -> {str(r)[:80]!r}, expected the {n}-nt strand it came from"))
+        else:
+            a = outcome(dna_to_number, x, True, limit=300)
+            if a != ("ok", text):
+                fails.append(("dna_to_number:long-str", f"dna_to_number(<{n}-nt strand>, True) -> {str(a)[:80]!r}, expected the {len(text)}-digit value"))
+            b = outcome(dna_to_number, x, False, limit=300)
+            if b != ("ok", want):
+                fails.append(("dna_to_number:long-int", f"dna_to_number(<{n}-nt strand>, False) -> {str(b)[:80]!r}"))
+        return fails
+    if case["kind"] == "long-bits":
+        want = S.val2(x)
+        text = big_str(want)
+        if case["dir"] == "to_bits":
+            for num, tag in ((text, "str"), (want, "int")):
+                r = outcome(number_to_bit, num, n, limit=600)
+                if r[0] != "ok" or list(r[1]) != list(x):
+                    fails.append(("number_to_bit:long-" + tag, f"number_to_bit(<{len(text)}-digit {tag}>, {n}) -> {str(r)[:80]!r}"))
+        else:
+            a = outcome(bit_to_number, x, True, limit=600)
+            if a != ("ok", text):
+                fails.append(("bit_to_number:long-str", f"bit_to_number(<{n} bits>, True) -> {str(a)[:80]!r}"))
+            b = outcome(bit_to_number, x, False, limit=600)
+            if b != ("ok", want):
+                fails.append(("bit_to_number:long-int", f"bit_to_number(<{n} bits>, False) -> {str(b)[:80]!r}"))
+        return fails
     if case["kind"] == "bits":
         want = S.val2(x)
         a = outcome(bit_to_number, x, True)
